@@ -11,11 +11,12 @@ ID = 'C39'
 TITLE = 'RenameChoices renames exactly the mapped choices'
 PROPS = ['Props/C39']
 RULE = ('documents built through the real engine: table T with Choice columns Ch and X, ChoiceList column CL, an Any '
-        'column, formula columns FCh=$Ch (Choice) and FCL=$CL (ChoiceList), a second table U with a Choice column; 1-8 '
+        'column, formula columns FCh=$Ch (Choice) and FCL=$CL (ChoiceList) as control, DATA columns DCh (Choice, default '
+        'formula) and DCL (ChoiceList, trigger formula with recalcWhen=never), a second table U with a Choice column; 1-8 '
         'rows of choices x,y,z,w,"",e-acute, None, alt-text and numbers, ChoiceList cells with 0-3 elements; random row '
         'removals; 0-5 saved filters on Ch/CL/X/A/FCh in by-value form (included/excluded lists with strings, numbers, '
         'null, nested lists and objects), empty text, {} ; rename maps of 0-3 entries incl. swaps (30%), 3-cycles, '
-        'chains x->y,y->z, identity, the empty-string key, unused keys; target column Ch, CL, FCh or FCL. Separate '
+        'chains x->y,y->z, identity, the empty-string key, unused keys; target column Ch, CL, DCh, DCL, FCh or FCL. Separate '
         'streams: range filters ({"min":..}) and relative-date bounds on the column, malformed filters (string '
         'entries, non-object JSON; model only), non-string rename targets (frame only), and the witnesses of the three '
         'repaired defects (run first). A case is non-trivial when the '
@@ -67,9 +68,13 @@ COLS = [
   {'id': 'X', 'type': 'Choice', 'isFormula': False},
   {'id': 'FCh', 'type': 'Choice', 'isFormula': True, 'formula': '$Ch'},
   {'id': 'FCL', 'type': 'ChoiceList', 'isFormula': True, 'formula': '$CL'},
+  # DATA columns (isFormula False) that carry a default-value formula / a trigger formula: has_formula() is true for
+  # them, is_formula() is not; their cells must be renamed like those of any data column
+  {'id': 'DCh', 'type': 'Choice', 'isFormula': False, 'formula': "'x'"},
+  {'id': 'DCL', 'type': 'ChoiceList', 'isFormula': False, 'formula': "['x', 'y']", 'recalcWhen': 1},
 ]
-TARGETS = ['Ch', 'Ch', 'Ch', 'CL', 'CL', 'CL', 'FCh', 'FCL']
-FILTER_COLS = ['Ch', 'CL', 'X', 'A', 'FCh', 'FCL']
+TARGETS = ['Ch', 'Ch', 'Ch', 'CL', 'CL', 'CL', 'FCh', 'FCL', 'DCh', 'DCh', 'DCL', 'DCL']
+FILTER_COLS = ['Ch', 'CL', 'X', 'A', 'FCh', 'FCL', 'DCh', 'DCL']
 
 
 def ua(*a):
@@ -163,7 +168,8 @@ def gen_doc(rng, stream):
   doc = {'n': k,
          'data': {'Ch': [gen_choice_cell(rng) for _ in range(k)], 'CL': [gen_list_cell(rng) for _ in range(k)],
                   'A': [rng.choice(['x', 'y', 1, None, ['L', 'x', 'y']]) for _ in range(k)],
-                  'X': [gen_choice_cell(rng) for _ in range(k)]},
+                  'X': [gen_choice_cell(rng) for _ in range(k)],
+                  'DCh': [gen_choice_cell(rng) for _ in range(k)], 'DCL': [gen_list_cell(rng) for _ in range(k)]},
          'udata': [rng.choice(CHOICES) for _ in range(rng.randint(0, 3))],
          'remove': [], 'filters': []}
   if k > 1 and rng.random() < 0.5:
